@@ -3,17 +3,19 @@ CONSTANTS
   P = 3
   NPUB = 2
   NPRIV = 0
-  PreConsts <- Pre2
-  MaxCalls = 2
-  MaxConn = 1
-  Kinds = {"add", "sub", "mul", "div", "connect", "azero", "abool"}
+  PreConsts <- PreNone
+  MaxCalls = 4
+  MaxConn = 0
+  Kinds = {"mul", "add"}
   FixD1 = TRUE
   FixD2 = TRUE
   FixFuse = TRUE
-  NoFold = FALSE
+  NoFold = TRUE
 INVARIANTS
   TypeOK
   EmitReplay
   RunnerSelfConsistent
   BuilderSound
+CONSTRAINT
+  FusionShaped
 CHECK_DEADLOCK FALSE
